@@ -194,37 +194,42 @@ class BodyMixin:
 
         body = self.body
         markup: MultipartMarkup = body.ombott_markup
-        if markup is None:
-            # should never happen since we check content-type
-            # when reading body
-            raise BodyParsingError()
-        elif markup.error is not None:
-            raise markup.error
-        def put(dct, listified, key, it):
-            if key in dct:
-                el = dct[key]
-                if key not in listified:
-                    el = dct[key] = [el]
-                    listified.add(key)
-                el.append(it)
-            else:
-                dct[key] = it
+        try:
+            if markup is None:
+                # should never happen since we check content-type
+                # when reading body
+                raise BodyParsingError()
+            elif markup.error is not None:
+                raise markup.error
 
-        # a name may be used by a text part and by a file part,
-        # so repeated names are collected per container
-        post_listified, forms_listified, files_listified = set(), set(), set()
-        for item in FieldStorage.iter_items(body, markup.markups, self.config.max_memfile_size):
-            key = item.name
-            if item.filename:
-                it = FileUpload(
-                    item.file, item.name,
-                    item.filename, item.headers
-                )
-                put(files, files_listified, key, it)
-            else:
-                it = item.value
-                put(forms, forms_listified, key, it)
-            put(post, post_listified, key, it)
+            def put(dct, listified, key, it):
+                if key in dct:
+                    el = dct[key]
+                    if key not in listified:
+                        el = dct[key] = [el]
+                        listified.add(key)
+                    el.append(it)
+                else:
+                    dct[key] = it
+
+            # a name may be used by a text part and by a file part,
+            # so repeated names are collected per container
+            post_listified, forms_listified, files_listified = set(), set(), set()
+            for item in FieldStorage.iter_items(body, markup.markups, self.config.max_memfile_size):
+                key = item.name
+                if item.filename:
+                    it = FileUpload(
+                        item.file, item.name,
+                        item.filename, item.headers
+                    )
+                    put(files, files_listified, key, it)
+                else:
+                    it = item.value
+                    put(forms, forms_listified, key, it)
+                put(post, post_listified, key, it)
+        except RequestError as err:
+            # malformed or oversized form data is a client error (see config.errors_map)
+            self._raise(err, RequestError)
         return post
 
     @cache_in('environ[ ombott.request.forms ]', read_only=True)
